@@ -167,6 +167,47 @@ func runCase(c Case) kit.Result {
 		}
 		return def
 	}
+	// earlier commits of this history: their roots must stay readable, with the content they
+	// had, on the database the subject uses now - also while the committing StateDB object
+	// goes on being used and flushed (the state.Database keeps recently committed tries)
+	type pastCommit struct {
+		roots [3]common.Hash
+		obs   sk.Obs
+		at    string
+	}
+	var past []pastCommit
+	recheckPast := func(when string) *kit.Result {
+		for k := len(past) - 1; k >= 0 && k >= len(past)-3; k-- {
+			p := past[k]
+			st, err := state.New(p.roots[0], p.roots[1], p.roots[2], m.DB)
+			if err != nil {
+				r := kit.Fail("old-root-error", "%s: state.New with the roots committed at %s failed: %v", when, p.at, err)
+				return &r
+			}
+			got := m.Observe(st, true, true)
+			if keys := sk.Diff(p.obs, got, sk.Persistent); len(keys) > 0 {
+				r := kit.Fail("old-root-mismatch", "%s: the state opened from the roots committed at %s (%d commits ago) no longer shows what was committed; %d observables differ:\n%s", when, p.at, len(past)-k, len(keys), sk.Explain(p.obs, got, keys))
+				return &r
+			}
+			vo, err := vldReaderObs(p.roots[1], m.DB)
+			if err != nil {
+				r := kit.Fail("vldreader-error", "%s: NewVldReader on the validator root committed at %s failed: %v", when, p.at, err)
+				return &r
+			}
+			wantV := sk.Obs{"deep/index": sortedIndex(p.obs["deep/index"])}
+			for key, v := range p.obs {
+				if strings.HasPrefix(key, "val/") || strings.HasPrefix(key, "stat/") {
+					wantV[key] = v
+				}
+			}
+			if keys := sk.Diff(wantV, vo, nil); len(keys) > 0 {
+				r := kit.Fail("old-root-mismatch", "%s: NewVldReader on the validator root committed at %s no longer shows what was committed:\n%s", when, p.at, sk.Explain(wantV, vo, keys))
+				return &r
+			}
+			labels["reopen-earlier-commit"] = true
+		}
+		return nil
+	}
 	commitAndCompare := func(when string, mode int) *kit.Result {
 		if err := m.Commit(); err != nil {
 			r := kit.Fail("commit-error", "%s: Commit failed: %v", when, err)
@@ -227,6 +268,10 @@ func runCase(c Case) kit.Result {
 			}
 		}
 		checks++
+		if r := recheckPast(when); r != nil {
+			return r
+		}
+		past = append(past, pastCommit{m.Roots, live, when})
 		if mode > 0 {
 			dirtyMarkRisk = false
 			if mode == 2 {
@@ -258,6 +303,9 @@ func runCase(c Case) kit.Result {
 			m.Finalise()
 		case "iroot":
 			m.IRoot()
+			if r := recheckPast(when); r != nil {
+				return *r
+			}
 		case "commit":
 			if r := commitAndCompare(when, op.M); r != nil {
 				return *r
@@ -268,7 +316,14 @@ func runCase(c Case) kit.Result {
 		case "copy":
 			// every production caller copies between transactions (miner.updateSnapshot, the
 			// side-chain verifier, the pool's noncer): finish the running transaction first
-			if m.OpsInTx > 0 || len(m.Live) > 0 {
+			// ... except that Copy is written to cope with un-finalised changes (its first loop
+			// walks the journal): with no call frame open and no self-destructed or
+			// touched-empty account in the running transaction (the copy's empty journal could
+			// not delete those at the next boundary - upstream behaviour) it may come first
+			unfinalised := op.M&2 == 2 && len(m.Live) == 0 && m.OpsInTx > 0 && m.NoGhostAccounts()
+			if unfinalised {
+				labels["copy-before-finalise"] = true
+			} else if m.OpsInTx > 0 || len(m.Live) > 0 {
 				m.Finalise()
 			}
 			if m.AcctDirtySinceRoot && m.Excl[sk.ClsCopyDirtyMark] {
@@ -324,7 +379,7 @@ func runCase(c Case) kit.Result {
 			if atRisk {
 				labels["copy-before-intermediate-root"] = true
 			}
-			if op.M == 0 {
+			if op.M&1 == 0 {
 				wits = append(wits, witness{orig, twin, a, fmt.Sprintf("the original (copied at op %d)", i), atRisk})
 				m.Adopt(cp, m.DB, m.Disk)
 				dirtyMarkRisk = dirtyMarkRisk || atRisk
